@@ -164,6 +164,7 @@ def run(R, ctx):
     aftermath = [l for l in obs if l.startswith("WA ")]
     obs = [l for l in obs if not l.startswith("WA ")]
     d = core.run_driver(obs)
+    core.negative_control(R, obs, "wal", skip=lambda l: l[:2] not in ("WT", "WB", "WK", "SB"))
     known = core.load_known().get("C16", {})
     # ---- statistics for the evidence
     ops = [l for l in obs if l[:2] in ("WC", "WS", "WN", "WX")]
